@@ -6,7 +6,7 @@ P=$(readlink -f "$1"); ID=$2; TIER=${3:-quick}
 W=$(mktemp -d /dev/shm/mw-XXXXXX)
 git -C /repo worktree add -q --detach "$W/r" HEAD
 # carry uncommitted changes of /repo (e.g. a fix being tried) into the scratch tree
-git -C /repo diff HEAD | (cd "$W/r" && git apply --allow-empty 2>/dev/null || true)
+[ -n "${NOCARRY:-}" ] || git -C /repo diff HEAD | (cd "$W/r" && git apply --allow-empty 2>/dev/null || true)
 (cd "$W/r" && git apply "$P")
 mkdir -p "$W/out"
 set +e
